@@ -286,6 +286,10 @@ def ordinal_programs(c, name):
     svals = [None, 1, 2, 3, 4, -1, -2, -3, n, -n, n + 1]
     sl = {(None, None, None), (None, None, -1), (None, None, 0), (1, None, 0), (-1, None, -1), (None, -1, None),
           (n - 1, None, -2), (-2, 0, -1), (0, n, 1), (n, 0, -1), (n + 3, -n - 3, -2), (-n - 3, n + 3, 3)}
+    # steps that are a whole number of compression blocks / footer sectors: consecutive items of ONE slice that are a block apart
+    for per in (4, 64, 128, 256, 512):
+        if per < n:
+            sl |= {(None, None, per), (5 % n, None, per), (None, None, -per), (n - 1, None, -per)}
     for _ in range(40 if quick else 400):
         sl.add((rng.choice(bvals), rng.choice(bvals), rng.choice(svals)))
     for t in sorted(sl, key=str):
